@@ -44,6 +44,9 @@ ECtx(k, ch) ==
     \* an `||` whose RIGHT operand is statically true still evaluates it whenever the left one is false
     [] k = 13 -> And_(g, Or_(B_("eq", G_(Pv, "n"), LitL(5)), <<"is", e, "User">>))
     [] k = 14 -> And_(g, Or_(B_("eq", G_(Pv, "n"), LitL(5)), Or_(Lt10(G_(e, "n")), TT_)))
+    \* ... with the guard inside the statically true operand as well: nothing outside it pays for the dereferences
+    [] k = 15 -> Or_(B_("eq", G_(Pv, "n"), LitL(5)), Or_(And_(g, Lt10(G_(e, "n"))), TT_))
+    [] k = 16 -> Or_(Not_(H_(Pv, "n")), Or_(And_(g, B_("hasTag", e, LitS(TagK))), TT_))
 \* an action literal other than the request's action is an entity like any other: dereferencing it (`in`) needs it in the slice
 ActLitPols ==
   {<<WithId(WhenP(s, e), "p1", eff)>> : s \in {1, 5}, eff \in {"permit"},
@@ -53,7 +56,7 @@ ActLitPols ==
 LevelPols ==
   ActLitPols \cup
   {<<WithId(WhenP(2, Ctx(k, Chains[i])), "p1", "permit")>> : k \in 1..6, i \in 1..Len(Chains)}
-  \cup {<<WithId(WhenP(2, ECtx(k, EChains[i])), "p1", "permit")>> : k \in 1..14, i \in 1..Len(EChains)}
+  \cup {<<WithId(WhenP(2, ECtx(k, EChains[i])), "p1", "permit")>> : k \in 1..16, i \in 1..Len(EChains)}
   \cup {<<WithId(WhenP(2, ECtx(1, EChains[i])), "p1", "permit"),
           WithId(WhenP(2, And_(EChains[i][2], B_("in", EChains[i][1], <<"lit", TG2>>))), "p2", "permit")>> : i \in 1..Len(EChains)}
   \cup {<<WithId(WhenP(2, Ctx(1, Chains[i])), "p1", "permit"), WithId(WhenP(2, ECtx(k, EChains[j])), "p2", "forbid")>>
